@@ -152,7 +152,7 @@ def fixed_cart_cases():
 
 
 def gen_findiff(rng):
-    nd = rng.randint(2, 3)  # rank 1 raises in filter_separable (known finding KF-05, exercised by C09 only)
+    nd = rng.choice([1, 2, 2, 3, 3])  # rank 1 raised in filter_separable before the repair
     shape = [rng.randint(1, 5) for _ in range(nd)]
     while prod(shape) > 48:
         shape[rng.randrange(nd)] = 2
